@@ -108,13 +108,35 @@ func TestC19(t *testing.T) {
 		progs = append(progs, p)
 	}
 	seq := 0
-	cfgs := []struct{ N, R int }{{1, 1}, {2, 1}, {3, 2}, {2, 2}}
+	cfgs := []struct {
+		N, R     int
+		Failover bool // both DMaps are filled, then the last member is stopped abruptly: the survivors hold non-empty backup fragments of partitions they now own
+	}{{1, 1, false}, {2, 1, false}, {3, 2, false}, {2, 2, false}, {2, 2, true}}
 	for ci, cf := range cfgs {
 		c, err := cluster.Start(cluster.Options{Replicas: cf.R, Partitions: 7, Manual: true}, cf.N)
 		if err != nil {
 			t.Fatal(err)
 		}
 		label := fmt.Sprintf("N=%d R=%d", cf.N, cf.R)
+		if cf.Failover {
+			label += " after the loss of one member"
+			ec := c.Members[0].DB.NewEmbeddedClient()
+			for _, d := range []string{"ab", "a"} {
+				if dm, err := ec.NewDMap(d); err == nil {
+					for i := 0; i < 60; i++ {
+						dm.Put(ctx, fmt.Sprintf("pre%d", i), "p")
+					}
+				}
+			}
+			ec.Close(ctx)
+			if err := c.Stop(c.Members[cf.N-1], false); err != nil {
+				t.Fatal(err)
+			}
+			if err := c.WaitStable(15*time.Second, false); err != nil {
+				t.Fatal(err)
+			}
+			cf.N--
+		}
 		sum.Configs = append(sum.Configs, label)
 		paths := allPaths(t, c)
 		cc, err := olric.NewClusterClient([]string{c.Members[0].Name})
@@ -124,7 +146,7 @@ func TestC19(t *testing.T) {
 		allKeys := append(append([]string{}, keys...), "lk")
 		// one embedded client per member for the whole cluster's life (each one opens sockets of its own when it scans)
 		var embs []*olric.EmbeddedClient
-		for _, m := range c.Members {
+		for _, m := range c.Live() {
 			embs = append(embs, m.DB.NewEmbeddedClient())
 		}
 		var embedded []Path
